@@ -9,6 +9,7 @@ import (
 	"runtime"
 	"strconv"
 	"strings"
+	"syscall"
 	"time"
 
 	"bklverif/tlc"
@@ -35,17 +36,17 @@ func home() string {
 
 // Run is the context of one check invocation.
 type Run struct {
-	ID      string
-	Tier    string // quick | thorough
-	Seed    int64
-	Dir     string // scratch directory, removed at the end
-	Start   time.Time
-	Viol    []Violation
-	Known   map[string]int // known-finding id -> hits
-	Cov     map[string]any
-	Assume  []string
-	Level   string
-	Samples []any
+	ID         string
+	Tier       string // quick | thorough
+	Seed       int64
+	Dir        string // scratch directory, removed at the end
+	Start      time.Time
+	Viol       []Violation
+	Known      map[string]int // known-finding id -> hits
+	Cov        map[string]any
+	Assume     []string
+	Level      string
+	Samples    []any
 	UndefLimit float64
 }
 
@@ -67,6 +68,18 @@ func NewRun(id, tier string) *Run {
 	if old, _ := filepath.Glob(filepath.Join(Verif, "out", "replays", id+"-*.json")); len(old) > 0 {
 		for _, f := range old {
 			os.Remove(f)
+		}
+	}
+	// scratch directories of runs that were killed (their process is gone) are removed
+	if olds, _ := filepath.Glob(filepath.Join(Verif, "out", "run", "*-*")); len(olds) > 0 {
+		for _, o := range olds {
+			var pid int
+			if i := strings.LastIndex(o, "-"); i >= 0 {
+				fmt.Sscan(o[i+1:], &pid)
+			}
+			if pid > 0 && syscall.Kill(pid, 0) != nil {
+				os.RemoveAll(o)
+			}
 		}
 	}
 	dir := filepath.Join(Verif, "out", "run", fmt.Sprintf("%s-%d", id, os.Getpid()))
@@ -160,7 +173,9 @@ func (r *Run) Finish() {
 	if err := os.WriteFile(filepath.Join(evDir, r.ID+".json"), b, 0o644); err != nil {
 		Fatal("evidence: %v", err)
 	}
-	if os.Getenv("BKLV_KEEP") == "" { os.RemoveAll(r.Dir) }
+	if os.Getenv("BKLV_KEEP") == "" {
+		os.RemoveAll(r.Dir)
+	}
 	if len(r.Viol) > 0 {
 		fmt.Printf("%s %s: %d violation(s) in %.1fs\n", r.ID, r.Tier, len(r.Viol), time.Since(r.Start).Seconds())
 		os.Exit(1)
